@@ -139,9 +139,8 @@ func (s *state) endToEnd(pool *gjs.Pool, cand []*dirSpec, rng *rand.Rand) {
 						obsList = "IgnoredGoFiles"
 					}
 					cp := s.culprit(f, 0, i, obsList)
-					key := fmt.Sprintf("e2e:%s:%s", what, cp)
 					f, d := f, d
-					s.record(key, fmt.Sprintf("compiled program, -tags %q: file %s/%s with constraint %q: specification says %s, at run time the file %s (differing tag: %s)",
+					s.recordFlip("e2e:"+what, cp, fmt.Sprintf("compiled program, -tags %q: file %s/%s with constraint %q: specification says %s, at run time the file %s (differing tag: %s)",
 						strings.Join(s.usets[i], ","), d.name, f.Name, f.X.Text, l, map[bool]string{true: "registered itself", false: "did not register itself"}[got], cp),
 						func() map[string]string {
 							mini := gjs.Prog{Files: map[string]string{
